@@ -249,7 +249,16 @@ def post(ctx, mode="predefined", arg="BETA", db=3, stable=("BETA", "ALPHA"), e=2
     M, f, und = mk_rows(ctx, stable, e)
     M0 = cp(M); f0 = cp(f)
     hp = HomogenizationParameters("wiener upper", postProcessFunction=mode, postProcessArgs=arg)
-    M1, f1 = hp.postProcessFunction(therm, M, f, *hp.postProcessParameters, phases=np.array(list(stable)))
+    if mode == "exclude" and isinstance(arg, str):
+        # a single phase given by its bare name instead of the documented one-element list: a version that rejects this input is fine,
+        # one that accepts it must act on the phase of that name (not on none, not on another one)
+        try:
+            M1, f1 = hp.postProcessFunction(therm, M, f, *hp.postProcessParameters, phases=np.array(list(stable)))
+        except (TypeError, ValueError):
+            return
+        arg = [arg]
+    else:
+        M1, f1 = hp.postProcessFunction(therm, M, f, *hp.postProcessParameters, phases=np.array(list(stable)))
     ctx.observe("M1", M1); ctx.observe("f1", f1)
     ctx.prove("post-process returns a (p, e) matrix and p fractions", np.shape(M1) == np.shape(M0) and np.shape(f1) == np.shape(f0))
     check_post(ctx, "", mode, arg, stable, M0, f0, M1, f1)
@@ -574,7 +583,8 @@ HARNESSES = [
             params={"quick": [{"mode": "predefined", "arg": "BETA", "db": 3, "stable": st} for st in (["BETA"], ["BETA", "GAMMA"], ["GAMMA", "BETA"], ["ALPHA", "GAMMA"], ["GAMMA"], ["ALPHA", "BETA", "GAMMA"])] +
                              [{"mode": "predefined", "arg": "GAMMA", "db": 3, "stable": st} for st in (["GAMMA"], ["ALPHA", "GAMMA"], ["BETA", "ALPHA"])] +
                              [{"mode": "exclude", "arg": ex, "db": 3, "stable": st} for ex, st in ((["GAMMA"], ["GAMMA"]), (["GAMMA"], ["ALPHA", "GAMMA"]), (["GAMMA"], ["ALPHA", "BETA"]),
-                                                                                                    (["BETA", "GAMMA"], ["GAMMA", "ALPHA"]), (["BETA"], ["BETA", "GAMMA"]), (["ALPHA", "GAMMA"], ["ALPHA", "BETA", "GAMMA"]), ([], ["ALPHA", "BETA"]))] +
+                                                                                                    (["BETA", "GAMMA"], ["GAMMA", "ALPHA"]), (["BETA"], ["BETA", "GAMMA"]), (["ALPHA", "GAMMA"], ["ALPHA", "BETA", "GAMMA"]), ([], ["ALPHA", "BETA"]),
+                                                                                                    ("GAMMA", ["ALPHA", "GAMMA"]), (("BETA", "GAMMA"), ["GAMMA", "ALPHA"]), ("BETA", ["BETA"]))] +
                              # a phase stable as two composition sets of the same name (miscibility gap): every row with an excluded
                              # name is removed; 'predefined' with a repeated *alpha* name is left out (which set is meant is undocumented)
                              [{"mode": "exclude", "arg": ex, "db": 3, "stable": st} for ex, st in ((["GAMMA"], ["GAMMA", "ALPHA", "GAMMA"]), (["GAMMA", "BETA"], ["ALPHA", "GAMMA", "GAMMA"]),
